@@ -62,6 +62,7 @@
     `T ptr-ops f ( p1 , … , pn ) qualifiers ;` in a class body is exactly ONE `on_class_method` with
     the access level in force and exactly the written qualifier flags.
 -/
+import CxxModel.Theorems.FnBody
 import CxxModel.Theorems.DeclGenItems
 import CxxModel.Blocks
 import CxxModel.Theorems.Events
@@ -575,6 +576,37 @@ theorem C03_bitfield_member (env : Env) (hp : RulesProgress env.cfg = true) (F D
       ev.stateId = blk.id ∧ ev.parentId = rest.head?.map (·.id) ∧ (∀ dd, d = some dd → dox = some dd) ∧
       w7.delivered = w.delivered + 1 ∧ w7.anon = w.anon ∧ w7.muted = false ∧ w7.nextId = w.nextId :=
   toplevel_field_bits_pre env hp F D w toks first trest segs cst vol pre ops x colon num semi d1 b1 b0 bmid bx bc bn b' blk rest hstack hk acc hacc hmu hfa hspec htoks hfirst htok hy0 hhead hy hpre hfn hops htx hx hxv htc hc htn hn hdig hsemi hs hF
+
+/-- **member function definitions `S ptr-ops f ( parameters ) qualifiers { body }` through `parse()`'s loop**: exactly ONE
+    `on_class_method` with exactly the written qualifier flags and `has_body`; ANY bracket-balanced body is skipped exactly -/
+theorem C03_method_definition (env : Env) (hp : RulesProgress env.cfg = true) (F D : Nat) (w : World)
+    (toks : List Tok) (first : Tok) (trest : List Tok) (segs : List PQSeg) (cst vol : Bool) (ops : List Tok) (x op : Tok) (plist : List Param) (ob : Tok) (content : List Tok) (cb : Tok) (quals : List Tok) (m' : Function) (d1 : DType) (b1 b0 bmid bx bo bc bq bb b' : Buf)
+    (blk : Block) (rest : List Block) (hstack : w.stack = blk :: rest) (hk : blk.hdr.kind = .cls)
+    (hmu : w.muted = false) (hfa : ¬ env.faultAt = some w.delivered)
+    (hspec : TypeSpecR env (F + 1) (D + 1 + 1) toks segs cst vol) (htoks : toks = first :: trest) (hfirst : specFirst first.type = true)
+    (htok : tokenEofOk env.cfg w.buf = .ok (some first, b1))
+    (hy0 : Yields env.cfg b1 trest b0)
+    (hops : opsHeadOk ops = true) (hopsv : ∀ o ∈ ops, o.value ≠ "auto")
+    (hy : Yields env.cfg b0 ops bmid)
+    (ha : applyPtrOps (.type (.mk segs none false) cst vol) (ops.map (·.type)) = some d1)
+    (htx : tokenEofOk env.cfg bmid = .ok (some x, bx)) (hx : x.type = "NAME") (hxv : identVal x.value = true)
+    (hto : tokenEofOk env.cfg bx = .ok (some op, bo)) (hop : op.type = "(")
+    (hparams : ∀ W : World, W.buf = bo → ∃ w7, interp env (parseParametersStep (F + 1) (core (F + 1) (D + 1 + 1 + 1)) true) W = (w7, .ok (plist, false, [])) ∧
+      SameButLog W w7 ∧ w7.buf = bc)
+    (hyq : Yields env.cfg bc quals bq)
+    (htb : tokenEofOk env.cfg bq = .ok (some ob, bb)) (hob : ob.value = "{")
+    (hbal : Balanced "{" "}" content) (hcb : cb.type = "}") (hyb : Yields env.cfg bb (content ++ [cb]) b')
+    (hFq : quals.length + content.length + 2 ≤ F) (hF : ops.length + 2 ≤ F + 1) :
+    ∀ (d : Option String) (bD : Buf), getDoxygen env.cfg env.mcRe w.buf = .ok (d, bD) →
+    applyQuals { plainFunction x d1 d with parameters := plist, isMethod := true, access := blk.access }
+      (quals.map (·.value)) = some m' →
+    ∃ (w7 : World) (ct : CTok) (ev : Event),
+      interp env (mainBody (F + 1) (core (F + 1) (D + 1 + 1 + 1 + 1)) none) w = (w7, .ok (.inl none)) ∧
+      w7.buf = b' ∧ ct.value = first.value ∧ w7.stack = { blk with loc := .tok ct.sidx } :: rest ∧
+      w7.events = w.events ++ [ev] ∧ ev.kind = .item (.classMethod { m' with hasBody := true }) ∧
+      ev.stateId = blk.id ∧ ev.parentId = rest.head?.map (·.id) ∧
+      w7.delivered = w.delivered + 1 ∧ w7.anon = w.anon ∧ w7.muted = false ∧ w7.nextId = w.nextId :=
+  toplevel_method_body_gen env hp F D w toks first trest segs cst vol ops x op plist ob content cb quals m' d1 b1 b0 bmid bx bo bc bq bb b' blk rest hstack hk hmu hfa hspec htoks hfirst htok hy0 hops hopsv hy ha htx hx hxv hto hop hparams hyq htb hob hbal hcb hyb hFq hF
 
 /-- such a member is a piece of whole class bodies: `Member.fieldGen` composes with every other member kind in
     `Item.cls`, so `parse_source` covers classes whose data members have cv-qualified / fundamental types -/
